@@ -26,16 +26,13 @@ def tmul(a, b, D):
     return out
 
 
-def adjoint_check(ap, prog, cg, fx, fys, rng, D, P, x_data):
-    """returns None if the identity holds, else a description; x_data: (D,P,N)"""
+def adjoint_sides(ap, prog, cg, fx, fys, D, P, x_data, v, ybars):
+    """(lhs, rhs, xbar): <xbar, v> from the reverse sweep and <ybar, F'(x) v> from forward propagation alone"""
     N = prog['N']
-    v = progs.rand_utpm_data(rng, D, P, N)
-    ybars = [progs.rand_utpm_data(rng, D, P, 1)[:, :, 0] for _ in fys]
     cg.pushforward([ap.UTPM(x_data.copy())])
     cg.pullback([ap.UTPM(yb.copy()) for yb in ybars])
-    xbar = numpy.asarray(fx.xbar.data)
-    # forward only: x + t^D v with 2D coefficients
-    # y(x + t^D v) - y(x) = t^D F'(x(t)) v(t) + O(t^2D): both evaluated with 2D coefficients
+    xbar = numpy.asarray(fx.xbar.data).copy()
+    # forward only: y(x + t^D v) - y(x) = t^D F'(x(t)) v(t) + O(t^2D), both evaluated with 2D coefficients
     ext = numpy.concatenate([x_data, v], axis=0)
     ext0 = numpy.concatenate([x_data, numpy.zeros_like(v)], axis=0)
     yext = progs.run(prog, ap.UTPM(ext.copy()), ap)
@@ -46,12 +43,34 @@ def adjoint_check(ap, prog, cg, fx, fys, rng, D, P, x_data):
     for yb, ye, ye0 in zip(ybars, yext, yext0):
         w = numpy.asarray(ye.data)[D:2 * D] - numpy.asarray(ye0.data)[D:2 * D]
         rhs += tmul(yb, w, D)
+    return lhs, rhs, xbar
+
+
+def adjoint_check(ap, prog, cg, fx, fys, rng, D, P, x_data):
+    """returns None if the identity holds, ('skip', ..) if float64 cannot decide it at this point, else a description; x_data: (D,P,N)"""
+    N = prog['N']
+    v = progs.rand_utpm_data(rng, D, P, N)
+    ybars = [progs.rand_utpm_data(rng, D, P, 1)[:, :, 0] for _ in fys]
+    lhs, rhs, xbar = adjoint_sides(ap, prog, cg, fx, fys, D, P, x_data, v, ybars)
     scale = 1 + numpy.abs(lhs) + numpy.abs(rhs)
     dev = numpy.abs(lhs - rhs) / scale
     if not numpy.all(numpy.isfinite(dev)):
         return 'non-finite adjoint', dict(v=v.tolist(), ybar=[y.tolist() for y in ybars], xbar=xbar.tolist())
     if dev.max() > 1e-8:
         d, p = numpy.unravel_index(int(numpy.argmax(dev)), dev.shape)
+        # conditioning: the same two quantities at a point perturbed by a relative 1e-13 (3 draws).  If they move by more than 1% of
+        # the disagreement, float64 rounding (1e-16) explains it up to the usual factor and the case decides nothing.
+        prng = numpy.random.RandomState(12345)
+        moved = 0.0
+        for _ in range(3):
+            xp = x_data * (1 + 1e-13 * prng.uniform(-1, 1, size=x_data.shape))
+            try:
+                l2, r2, _xb = adjoint_sides(ap, prog, cg, fx, fys, D, P, xp, v, ybars)
+                moved = max(moved, abs(l2[d, p] - lhs[d, p]), abs(r2[d, p] - rhs[d, p]))
+            except Exception:
+                pass
+        if not numpy.isfinite(moved) or abs(lhs[d, p] - rhs[d, p]) <= 100 * moved:
+            return 'skip', float(moved)
         return ('<xbar,v> = %.10g but <ybar, F\'v> = %.10g at order %d, direction %d' % (lhs[d, p], rhs[d, p], d, p),
                 dict(v=v.tolist(), ybar=[y.tolist() for y in ybars], xbar=xbar.tolist()))
     return None
@@ -91,6 +110,9 @@ def main(tier, seed):
         except Exception as e:
             rep.violation('pullback:exception:%s' % type(e).__name__, 'pushforward/pullback raises: %s' % str(e)[:300],
                           dict(kind='adjoint', prog=prog, case=meta, x_rec=x_rec.tolist(), x=x_new.tolist(), exc=repr(e)[:1500]))
+            continue
+        if why is not None and why[0] == 'skip':
+            rep.count('ill-conditioned evaluation point (a 1e-13 relative perturbation moves both sides by > 1% of their difference): undecided', True)
             continue
         if why is not None:
             rep.violation('adjoint' + (':buffers' if meta['buffers'] else ''), 'reverse sweep violates the adjoint identity: %s' % why[0],
